@@ -127,6 +127,14 @@ enum Op1 {
     Timed,
     Adv6,
     Adv12,
+    // ---- the secondary entry points (explored in a sub-alphabet of their own) ----
+    /// tag_exists for an enabled-or-not tag, the other tag and an unknown one
+    TagExists,
+    /// check_network_request_subset(url, previously matched, force exceptions)
+    Subset(usize, bool, bool),
+    Hidden,
+    /// use_resources with the resources the engine already has
+    ReloadRes,
 }
 
 const S1_URLS: &[(&str, &str)] = &[
@@ -145,11 +153,14 @@ fn s1_ops() -> Vec<Op1> {
         Op1::Use(0), Op1::Use(1), Op1::Use(2), Op1::Use(3), Op1::EnableA, Op1::DisableA,
         Op1::AlwaysDiscard, Op1::NeverDiscard, Op1::DiscardAll, Op1::SerDeSame, Op1::SerDeFresh, Op1::Save, Op1::Load,
         Op1::LoadBad, Op1::LoadCut, Op1::Timed, Op1::Adv6, Op1::Adv12,
+        Op1::TagExists, Op1::Subset(0, true, false), Op1::Subset(0, false, true), Op1::Subset(3, true, false), Op1::Hidden, Op1::ReloadRes,
     ]
 }
+/// the operations of the "all operations" sweep (the secondary entry points come after them)
+const S1_PRIMARY_OPS: usize = 27;
 
 fn is_query1(o: &Op1) -> bool {
-    matches!(o, Op1::Check(_) | Op1::Csp | Op1::Cosmetic)
+    matches!(o, Op1::Check(_) | Op1::Csp | Op1::Cosmetic | Op1::TagExists | Op1::Subset(..) | Op1::Hidden)
 }
 
 fn tags_of(mask: u8) -> Vec<&'static str> {
@@ -178,6 +189,16 @@ fn s1_query(e: &Engine, o: &Op1) -> Ans {
         }
         Op1::Csp => Ans::Csp(csp_set(&e.get_csp_directives(&Request::new("https://x.com/", "https://x.com/", "document").unwrap()))),
         Op1::Cosmetic => cos(e.url_cosmetic_resources("https://x.com/")),
+        Op1::TagExists => Ans::Sel(vec![format!("a:{} b:{} zz:{}", e.tag_exists("a"), e.tag_exists("b"), e.tag_exists("zz"))]),
+        Op1::Subset(i, p, f) => {
+            let (u, t) = S1_URLS[*i];
+            Ans::Net(Verdict::of(&e.check_network_request_subset(&Request::new(u, "https://y.com/", t).unwrap(), *p, *f)))
+        }
+        Op1::Hidden => {
+            let mut v = e.hidden_class_id_selectors(["generic", "ad", "nope"], ["x"], &Default::default());
+            v.sort();
+            Ans::Sel(v)
+        }
         _ => unreachable!(),
     }
 }
@@ -265,6 +286,7 @@ fn s1_run_inner(s: &S1, seq: &[usize], l: &mut Local) -> Option<(usize, String, 
             Op1::Timed => e.set_regex_discard_policy(RegexManagerDiscardPolicy { cleanup_interval: Duration::from_millis(10), discard_unused_time: Duration::from_millis(15) }),
             Op1::Adv6 => adblock::verif_hooks::advance_thread_clock(Duration::from_millis(6)),
             Op1::Adv12 => adblock::verif_hooks::advance_thread_clock(Duration::from_millis(12)),
+            Op1::ReloadRes => e.use_resources(resources()),
             Op1::SerDeFresh => {
                 let b = e.serialize_raw().unwrap();
                 let mut f = Engine::new(false);
@@ -929,9 +951,16 @@ fn check(ctx: &Ctx) -> i32 {
         let want = [Check(0), Check(1), Check(4), Use(0), Use(1), Timed, Adv6, Adv12, DiscardAll, NeverDiscard];
         (0..p.s1.ops.len()).filter(|&i| want.contains(&p.s1.ops[i])).collect()
     };
+    let s1_secondary: Vec<usize> = {
+        use Op1::*;
+        let want = [Check(0), Check(3), Cosmetic, TagExists, Subset(0, true, false), Subset(0, false, true), Subset(3, true, false), Hidden, Use(1), Use(3), EnableA, DisableA, SerDeSame, ReloadRes];
+        (0..p.s1.ops.len()).filter(|&i| want.contains(&p.s1.ops[i])).collect()
+    };
+    assert!(matches!(p.s1.ops[S1_PRIMARY_OPS - 1], Op1::Adv12) && matches!(p.s1.ops[S1_PRIMARY_OPS], Op1::TagExists));
     let all = |n: usize| -> Vec<usize> { (0..n).collect() };
     let sweeps: Vec<(usize, &str, Vec<usize>, usize)> = vec![
-        (1, "all operations", all(p.s1.ops.len()), depths[0] - 1),
+        (1, "all primary operations", all(S1_PRIMARY_OPS), depths[0] - 1),
+        (1, "secondary entry points", s1_secondary, depths[0] - 1),
         (1, "core operations", s1_core, depths[0]),
         (1, "tag switches around save / load", s1_saveload, depths[0]),
         (1, "rejected loads", s1_failed_loads, depths[0]),
